@@ -6,15 +6,16 @@
    (for sympy.Expr inputs) followed by [pp].  [derives] is Python's levelled expression grammar for the token set,
    [pyeval] evaluates a parse tree over the same abstract function / power semantics as [eval].
 
-   FULL STATEMENT (false of the faithful model and of the code, see the three _refuted theorems):
-     forall e p, doprint e = Ok p ->
-       derives 0 (toks p) p /\ forall v, eval e = Some v -> pyeval p = Some v.
-   PROVED: the statement for all trees (any depth, evaluated or not) satisfying the boolean guard [printable],
-   which excludes exactly: a power whose base is printed as a power (F10a), -1 * (sum or negative product) (F10b),
-   a single denominator that prints as a quotient (F17), ill-sorted trees (a relation where a number is needed),
-   Quantity / Derivative leaves and Integer leaves with a denominator (never produced by SymPy).
+   STATEMENT (full strength since the fixes 2293052 (F10a), da05218 (F10b), a75e9c2 (F17) are mirrored by the model):
+     forall e p, doprint e = Ok p -> printable (pre e) = true ->
+       wb p /\ derives 0 (toks p) p /\ forall v, eval e = Some v -> pyeval p = Some v.
+   [printable] is no defect exclusion any more; it only delimits the property's own scope: the tree is made of the
+   supported constructs and is well-sorted (numbers where numbers are expected, truth values where truth values are
+   expected; no Quantity / Derivative leaves, which are printed by user hooks; Integer leaves have denominator 1).
    Direction: wherever the expression has a real / truth value the Python text computes the same value
    (Python's short-circuit 'and'/'or'/conditional may succeed where the expression is undefined).
+   Not covered by the model (known finding F18, checked per case by the harness): SymPy operations inside the printer
+   (optimize/replace, _keep_coeff) that re-evaluate unevaluated input instead of rewriting it plainly.
    Unambiguity of Python's grammar (the parser returns THE derivation) is trusted and sampled by the harness. *)
 From Coq Require Import List ZArith QArith Reals Qreals String.
 From Verif Require Import Sexp Expr Eval PyGrammar PyPrinter PrinterTables_gen C11GrammarP C11P.
@@ -27,13 +28,13 @@ Proof. exact grammar_sound. Qed.
 Print Assumptions C11_grammar_sound.
 
 (* T2: for every printable tree, at every depth, the parse tree the printer builds is well-bracketed *)
-Theorem C11_print_wellbracketed_partial : forall fuel e p,
+Theorem C11_print_wellbracketed : forall fuel e p,
   pp fuel e = Ok p -> printable e = true -> wb p = true.
 Proof. exact wellbracketed. Qed.
-Print Assumptions C11_print_wellbracketed_partial.
+Print Assumptions C11_print_wellbracketed.
 
 (* T3: ... and it evaluates to the value of the expression *)
-Theorem C11_print_value_partial :
+Theorem C11_print_value :
   forall (fsem : Z -> list R -> option R) (psem : R -> R -> option R) (csem : Z -> option R)
          (qsem : Z -> Q -> Z -> option R) (vsem : Z -> option R) (dsem : Z -> Z -> option R),
   (forall x, psem x 1%R = Some x) ->
@@ -41,10 +42,10 @@ Theorem C11_print_value_partial :
   forall fuel e p v, pp fuel e = Ok p -> printable e = true ->
     eval fsem psem csem qsem vsem dsem e = Some v -> pyeval fsem psem csem vsem p = Some v.
 Proof. exact print_value. Qed.
-Print Assumptions C11_print_value_partial.
+Print Assumptions C11_print_value.
 
 (* T1-T3 composed for Printer.doprint: rewriting pass + printer *)
-Theorem C11_doprint_correct_partial :
+Theorem C11_doprint_correct :
   forall (fsem : Z -> list R -> option R) (psem : R -> R -> option R) (csem : Z -> option R)
          (qsem : Z -> Q -> Z -> option R) (vsem : Z -> option R) (dsem : Z -> Z -> option R),
   (forall x, psem x 1%R = Some x) ->
@@ -54,24 +55,21 @@ Theorem C11_doprint_correct_partial :
     wb p = true /\ derives 0 (toks p) p /\
     (forall v, eval fsem psem csem qsem vsem dsem e = Some v -> pyeval fsem psem csem vsem p = Some v).
 Proof. exact doprint_correct. Qed.
-Print Assumptions C11_doprint_correct_partial.
+Print Assumptions C11_doprint_correct.
 
-Theorem C11_pow_tower_refuted :
-  refutes (EPow (EPow v0 v1) v2) (EPow v0 (EPow v1 v2)) (Some (VR (2 * 2 * 2 * (2 * 2 * 2)))) None.
-Proof. exact pow_tower_refuted. Qed.
-Print Assumptions C11_pow_tower_refuted.
+(* regression witnesses of the repaired defects: formerly identical texts are now distinct and well-bracketed *)
+Theorem C11_pow_tower_fixed : now_distinct (EPow (EPow v0 v1) v2) (EPow v0 (EPow v1 v2)).
+Proof. exact pow_tower_fixed. Qed.
+Print Assumptions C11_pow_tower_fixed.
 
-Theorem C11_negated_sum_refuted :
-  refutes (EMul [m1; EAdd [v0; v1]]) (EAdd [EMul [m1; v0]; v1])
-          (Some (VR (Q2R (-1 # 1) * ((2 + (3 + 0)) * 1)))) (Some (VR (Q2R (-1 # 1) * (2 * 1) + (3 + 0)))).
-Proof. exact negated_sum_refuted. Qed.
-Print Assumptions C11_negated_sum_refuted.
+Theorem C11_negated_sum_fixed : now_distinct (EMul [m1; EAdd [v0; v1]]) (EAdd [EMul [m1; v0]; v1]).
+Proof. exact negated_sum_fixed. Qed.
+Print Assumptions C11_negated_sum_fixed.
 
-Theorem C11_single_denominator_refuted :
-  refutes (EMul [v0; EPow (EPow v1 m1) m1]) (EMul [EMul [v0; EPow (ENum 0 (1 # 1)) m1]; EPow v1 m1])
-          (Some (VR (2 * (/ / 3 * 1)))) (Some (VR (2 * (/ Q2R (1 # 1) * 1) * (/ 3 * 1)))).
-Proof. exact single_denominator_refuted. Qed.
-Print Assumptions C11_single_denominator_refuted.
+Theorem C11_single_denominator_fixed :
+  now_distinct (EMul [v0; EPow (EPow v1 m1) m1]) (EMul [EMul [v0; EPow (ENum 0 (1 # 1)) m1]; EPow v1 m1]).
+Proof. exact single_denominator_fixed. Qed.
+Print Assumptions C11_single_denominator_fixed.
 
 (* T4: the generated tables *)
 Theorem C11_function_table : forall s py, In (s, py) function_names ->
